@@ -20,16 +20,21 @@ def decTInst (s : String) : TInst :=
 
 def decFn (s : String) : Fn :=
   match s.splitOn ":" with
-  | [nm, np, nd, sf, ds, ti, ge, hb, ic] =>
+  | [nm, np, nd, sf, ds, ti, ge, hb, ic, ut] =>
     { name := decStr nm, nparams := np.toNat!, ndefaults := nd.toNat!, suffix := decOpt sf,
       dsuffix := decList decStr "+" ds, tinst := decList decTInst "+" ti,
-      generics := decList decOpt "+" ge, hasBuf := hb == "1", isCtor := ic == "1" }
+      generics := decList decOpt "+" ge, hasBuf := hb == "1", isCtor := ic == "1", usesT := ut == "1" }
   | _ => { name := [], nparams := 0, ndefaults := 0, suffix := none, dsuffix := [], tinst := [],
-           generics := [], hasBuf := false, isCtor := false }
+           generics := [], hasBuf := false, isCtor := false, usesT := false }
 
 def decSeg (s : String) : PathSeg :=
   if s.startsWith "c=" then .cls (decStr (s.drop 2).toString)
   else if s.startsWith "f=" then .nsf (decStr (s.drop 2).toString)
+  else if s.startsWith "t=" then
+    -- t=<name>^<explicit>^<nargs>^<flat>^<index>
+    match ((s.drop 2).toString).splitOn "^" with
+    | [n, e, na, fl, i] => .clsT (decStr n) { explicit := decOpt e, nargs := na.toNat!, flat := decStr fl } i.toNat!
+    | _ => .cls []
   else .ns (decStr (s.drop 2).toString)
 
 /-- library field: the library name, or `P<prefix>` for an explicit `format: C_prefix`. -/
@@ -70,6 +75,19 @@ def handleEx : List String → String
         let out := expand sc (decList decFn "!" fns)
         if out.isEmpty then "~" else ";".intercalate (out.map (encRec sc))
       | _ => "bad-container")
+  | _ => "bad-op"
+
+/-- `mt <wrap> <library> <container>` : method-table keys `P=<keys>;L=<keys>`. -/
+def handleMt : List String → String
+  | [w, lib, c] =>
+    let w0 := decWrap w
+    let pre := decPrefix lib
+    match c.splitOn "@" with
+    | [path, fns] =>
+      let sc := scopeOf pre w0 (decList decSeg "/" path) (rootScope pre w0)
+      let recs := expand sc (decList decFn "!" fns)
+      "P=" ++ encStrs (pyTable recs) ++ " L=" ++ encStrs (luaTable recs)
+    | _ => "bad-container"
   | _ => "bad-op"
 
 /-- `uc <string>` -/
